@@ -50,6 +50,9 @@ def queries(rng, xs):
     q = [-1.0, 0.0, rng.uniform(0, 60)]
     if xs:
         q += [xs[0], xs[-1], xs[-1] + 1.0, xs[0] - 0.5, rng.choice(xs), rng.choice(xs) + 0.25, (xs[0] + xs[-1]) / 2]
+        k = rng.choice(xs)
+        # "at least the requested value" is exact: one ulp, or a fraction of a thousandth, above or below a key (also the last one)
+        q += [math.nextafter(k, math.inf), math.nextafter(k, -math.inf), k + 2.5e-4, k - 2.5e-4, math.nextafter(xs[-1], math.inf), xs[-1] + 1e-5]
         if len(xs) > 1:
             i = rng.randrange(len(xs) - 1)
             q.append((xs[i] + xs[i + 1]) / 2)   # a tie for the nearest variant
